@@ -63,7 +63,7 @@ void build_stream(const Plan &plan, StreamRef &sr) {
   std::sort(sr.boundaries.begin(), sr.boundaries.end());
   sr.bytes = sr.ps.bytes;
   for (size_t i = 0; i < sr.ps.serials.size(); i++) for (size_t j = 0; j < i; j++) if (sr.ps.serials[i] == sr.ps.serials[j]) { if (!sr.damaged) g_stats.inc("fault.page.serial_reused_by_later_link"); sr.damaged = true; }
-  if (const Rec *m = plan.first("meta")) if (m->s("mode") == "hole" && plan.count("pfault") == 1 && !sr.ambiguous_cut && !sr.bs64_rewritten) {
+  if (const Rec *m = plan.first("meta")) if ((m->s("mode") == "hole" || m->i("hole", 0)) && plan.count("pfault") == 1 && !sr.ambiguous_cut && !sr.bs64_rewritten) {
     // the damaged page must be an audio page with a granule position, with at least one such page of the same link before it and three after it
     const Rec *f = plan.first("pfault"); size_t pi = sr.ps.pages.empty() ? 0 : (size_t)(f->u("page", 0) % sr.ps.pages.size());
     if (!sr.ps.pages.empty() && sr.ps.pages[pi].link >= 0 && !sr.ps.pages[pi].header && sr.ps.pages[pi].granule >= 0) {
@@ -71,7 +71,7 @@ void build_stream(const Plan &plan, StreamRef &sr) {
       size_t at = (size_t)(std::find(gp.begin(), gp.end(), pi) - gp.begin());
       if (at >= 1 && at + 3 < gp.size()) {
         auto pos = [&](size_t q) { return sr.start[L] + std::max<int64_t>(0, std::min<int64_t>(sr.ps.pages[q].granule - sr.goff[L], sr.ps.links[L]->len)); };
-        sr.hole = true; sr.hole_lo = std::max<int64_t>(sr.start[L], pos(gp[at - 1]) - sr.ps.links[L]->bs1); sr.hole_hi = pos(gp[at + 3]);
+        sr.hole = true; sr.hole_at = pos(gp[at - 1]); sr.hole_lo = std::max<int64_t>(sr.start[L], pos(gp[at - 1]) - sr.ps.links[L]->bs1); sr.hole_hi = pos(gp[at + 3]);
         sr.hole_w = (sr.hole_hi - sr.hole_lo) + (pos(gp[at]) - pos(gp[at - 1])) + sr.ps.links[L]->bs1;   // samples after which the position has been re-anchored for good, also when a repeated page made it run ahead
       }
     }
